@@ -80,7 +80,7 @@ Qed.
 Definition span_op (id : N) (o : op) : bool :=
   match o with
   | GetBal _ | GetNonce _ | GetCode _ | GetSt _ _ | Query _ _ | Version | DbDump
-  | SetBal _ _ | SetNonce _ _ | SetSt _ _ _ | SetCode _ _ | Snap => true
+  | SetBal _ _ | AddBal _ _ | SetNonce _ _ | SetSt _ _ _ | SetCode _ _ | Snap => true
   | Revert j => id <? j           (* only snapshots taken after [id] are reverted inside the span *)
   | _ => false
   end.
@@ -110,7 +110,7 @@ Proof.
   destruct outs as [|x t']; [split; assumption|].
   cbn [forallb] in Hs. apply andb_true_iff in Hs. destruct Hs as [Ho Ht].
   cbn [spec_run]. apply IH; [exact Ht | |]; destruct o; try discriminate; cbn [spec_step fst sp_snaps sp_next sp_set_cur sp_touch sp_set_snaps];
-    try assumption.
+    try assumption; try (destruct (z =? 0)%Z; cbn [fst sp_snaps sp_next sp_set_cur sp_touch]; assumption).
   - (* Snap: a fresh id *)
     cbn [alookup]. destruct (id =? sp_next s) eqn:E; [apply N.eqb_eq in E; lia | exact Ha].
   - (* Revert of a nested snapshot *)
